@@ -1,6 +1,7 @@
 package support
 
 import (
+	"fmt"
 	"github.com/go-kid/ioc/container"
 	"github.com/go-kid/ioc/syslog"
 	"github.com/go-kid/ioc/util/framework_helper"
@@ -53,7 +54,10 @@ func (r *registry) RegisterSingleton(singleton any) {
 	name := framework_helper.GetComponentName(singleton)
 	if exist, loaded := r.componentsMap.Load(name); loaded {
 		if exist != singleton {
-			r.logger().Panicf("register duplicated component %s", name)
+			//the logger only panics when its level lets panic messages through: the rejection must not depend on the log level
+			msg := fmt.Sprintf("register duplicated component %s", name)
+			r.logger().Error(msg)
+			panic(msg)
 		}
 		return
 	}
